@@ -55,6 +55,23 @@ Theorem C16_full_strcase : forall P, valid_package_strcase P ->
 Proof. exact chain_full_strcase. Qed.
 Print Assumptions C16_full_strcase.
 
+
+(* ... and for camelCase names with digits (lower_camel_d, proofs/StrcaseProofs.v: address2Line, fooB2,
+   v12Beta; still no two adjacent capitals) *)
+Theorem C16_full_strcase_digits : forall P, valid_package_strcase_d P ->
+  let r := run_chain current_config (compile_image Strcase.to_snake P) in
+  exists ks,
+    cr_source r = Ok (declared_api P)
+    /\ cr_client r = Ok (declared_clients Strcase.to_snake P, ks)
+    /\ (forall x, In x ks <->
+          present (image_env Strcase.to_snake P) x /\
+          exists k, In k (flat_map method_roots (declared_clients Strcase.to_snake P))
+                    /\ present (image_env Strcase.to_snake P) k
+                    /\ reach (image_env Strcase.to_snake P) k x)
+    /\ cr_swagger r = Ok tt.
+Proof. exact chain_full_strcase_d. Qed.
+Print Assumptions C16_full_strcase_digits.
+
 (* ---- each path parameter names a request property --------------------------------------------- *)
 (* about the code, without assuming that the declared path only uses request properties: whenever
    buildMethod accepts a method, every ":name" of the client path is the JSON name of an input field of the
